@@ -259,11 +259,30 @@ class _LSub(list):
     pass
 
 
-EXOTIC = ['odict', 'ddict', 'deque', 'chainmap', 'ns', 'uobj', 'dsub', 'lsub', 'ntlist', 'exc', 'list', 'dict', 'pobj', 'dcnode', 'pobj', 'dcnode']
+class _Fails:
+    """its registered printer raises: the value is shown by repr (C14 judges the containment); C13 cares that a SHARED instance is shown in full at every
+    occurrence - it is never 'still being printed' when it is reached again"""
+
+    def __init__(self, i):
+        self.i = i
+
+    def __repr__(self):
+        return 'FAILS%dX' % self.i
+
+
+@prettyprinter.register_pretty(_Fails)
+def _pretty_fails(v, ctx):
+    raise RuntimeError('printer of _Fails fails')
+
+
+_FAIL_OCC = []
+EXOTIC = ['fails', 'odict', 'ddict', 'deque', 'chainmap', 'ns', 'uobj', 'dsub', 'lsub', 'ntlist', 'exc', 'list', 'dict', 'pobj', 'dcnode', 'pobj', 'dcnode']
 
 
 def make_exotic(kind, i):
     """returns (node object, add(child))"""
+    if kind == 'fails':
+        return _Fails(i), lambda ch: None
     if kind == 'odict':
         o = _c.OrderedDict(id=i)
         return o, lambda ch, n=[0]: (o.__setitem__('e%d' % n[0], ch), n.__setitem__(0, n[0] + 1))
@@ -344,6 +363,9 @@ def exotic_children(o):
 
 
 def reference_markers(o, path, out, budget):
+    if isinstance(o, _Fails):
+        _FAIL_OCC.append(repr(o))
+        return
     ch = exotic_children(o)
     if ch is None:
         return
@@ -383,6 +405,7 @@ def check_exotic(sh, i):
     case = {'graph': {'exotic': i, 'seed': sh.seed}, 'width': 79}
     want = []
     budget_left = [4000]
+    del _FAIL_OCC[:]
     try:
         reference_markers(root, set(), want, budget_left)
     except TooBig:
@@ -397,6 +420,7 @@ def check_exotic(sh, i):
     except Exception as e:
         sh.violation('pformat-raised', repr(e), case)
         return
+    ws = [w for w in ws if '_pretty_fails' not in w[1]]
     if ws:
         sh.violation('warning', ws[0][1][-300:], case)
         return
@@ -404,6 +428,12 @@ def check_exotic(sh, i):
     if not ok:
         sh.violation('visited-trace', msg, case)
         return
+    shown = sorted(_re.findall(r'FAILS\d+X', text))
+    if shown != sorted(_FAIL_OCC):
+        sh.violation('shared-object-with-failing-printer-not-shown-in-full', 'occurrences shown %r, the reference DFS reaches %r; output %r' % (shown, sorted(_FAIL_OCC), text[:300]), case)
+        return
+    if len(_FAIL_OCC) > len(set(_FAIL_OCC)):
+        sh.counters['shared objects with a failing printer shown in full each time'] += 1
     got = [(a, int(b)) for a, b in _MARK.findall(text)]
     if got != want:
         sh.violation('markers-differ-for-other-container-kinds', 'recursion markers %r, the reference DFS expects %r; kinds %s; output %r' % (
@@ -510,7 +540,8 @@ def run_shard(sh):
 
 
 def finalize(m):
-    for name in ('outputs equal to the reference DFS', 'recursion markers verified', 'visited-set events checked', 're-prints verified', 'is_visited answers True (markers) observed', 'graphs through other container kinds verified (marker sequence)', 'aborted prints followed by identical re-prints'):
+    for name in ('outputs equal to the reference DFS', 'recursion markers verified', 'visited-set events checked', 're-prints verified', 'is_visited answers True (markers) observed', 'graphs through other container kinds verified (marker sequence)', 'aborted prints followed by identical re-prints',
+                 'shared objects with a failing printer shown in full each time'):
         if not m.counters.get(name):
             m.inconclusive.append('monitor never reached: ' + name)
 
